@@ -647,6 +647,14 @@ func planC02(prop string, seed uint64, tier string, idx int) *Plan {
 			}
 		}
 	}
+	if g.r.chance(30) {
+		// an image that lists another image's manifest among its layers (the digest is a manifest and a layer at once):
+		// what the inner image refers to stays retained through its own tag
+		alias := g.newImage(-1, -1)
+		g.p.Objs[alias].Layers = append(g.p.Objs[alias].Layers, imgs[0])
+		g.p.Objs[alias].Annot = map[string]string{"alias": "1"}
+		imgs = append(imgs, alias)
+	}
 	// manifests around the size limit: valid JSON padded with whitespace
 	if k.ManifestLimit > 0 {
 		base := g.newImage(-1, imgs[0])
